@@ -83,7 +83,7 @@ func runRTR(b []byte) string {
 	}
 	d, l, need := describeRTR(m)
 	re := "skip" // re-serialising allocates Len bytes and indexes the fixed layout
-	if int64(l) >= int64(need) && l <= 1<<20 {
+	if int64(l) >= int64(need) && l <= 4096 {
 		s, err := m.Serialize()
 		if err != nil {
 			re = "serr"
